@@ -473,10 +473,10 @@ func hostileMain(args []string) error {
 				{"Upgrade": "websocket", "Sec-WebSocket-Key": "dGhlIHNhbXBsZSBub25jZQ==", "Sec-WebSocket-Version": "13"},
 				{"Upgrade": "websocket", "Connection": "Upgrade", "Sec-WebSocket-Key": "short", "Sec-WebSocket-Version": "13"}}
 			paths := []string{"/h/ws/x", "/h/ws/x", "/h/ws/x", "/h/ws/x?s=y", "/h/ws/x?rn.s=1", "/h/ws/x?i=zz", "/h/ws/", "/h/ws/a/b", "/vs.H/Ws", "/h/typed/1/true/RED"}
-			for k, scr := range wsScripts(r, c.n/8+70) {
+			for k, scr := range wsScripts(r, c.n/8+130) {
 				id++
 				j := HostileReq{Case: id, Kind: "Ws", Entry: "ws", Path: paths[0], Hdr: hdrs[0], Opts: k % len(envs), WsWait: k%5 == 4}
-				if k >= 70 {
+				if k >= 130 {
 					j.Path, j.Hdr = paths[r.Intn(len(paths))], hdrs[r.Intn(len(hdrs))]
 				}
 				for _, wbytes := range scr {
